@@ -143,6 +143,10 @@ def run_api_child(asan_src, reqs, extra_path=None):
                 parts = line.split(" ", 2)
                 res[parts[1]]["outcome"] = parts[2].strip()
                 cur = None
+            elif cur is not None and line.startswith("Timeout (") and not res[cur]["reports"]:
+                res[cur]["outcome"] = "timeout"
+            elif cur is not None and res[cur]["outcome"] == "timeout":
+                pass            # the watchdog's traceback dump
             elif cur is not None and any(s in line for s in SAN_PAT):
                 res[cur]["reports"].append(line.strip()[:300])
             elif cur is not None and res[cur]["reports"] and \
@@ -153,6 +157,8 @@ def run_api_child(asan_src, reqs, extra_path=None):
             raise common.BuildError("API child did not start: " + p.stderr[-2000:])
         if cur is not None:
             res[cur]["rc"] = p.returncode
+            if res[cur]["outcome"] == "timeout":
+                res[cur]["traceback"] = p.stderr[-1500:]
         elif p.returncode != 0:
             raise common.BuildError(f"API child rc={p.returncode} outside a call: "
                                     + p.stderr[-1500:])
@@ -161,6 +167,8 @@ def run_api_child(asan_src, reqs, extra_path=None):
 
 
 def observed_verdict(r):
+    if r["outcome"] == "timeout" and not r["reports"]:
+        return "timeout"
     if r["reports"] or r["outcome"] == "crash":
         return "oob"
     if r["outcome"].startswith("raise:"):
@@ -343,7 +351,8 @@ def run(ctx):
                      {"routine": fn, "args": q["args"],
                       "array_shapes": [a["shape"] for a in q["arrays"]],
                       "array_dtypes": [a["dtype"] for a in q["arrays"]],
-                      "outside": bad[:20], "how": "harness/c20_aux/trace_child.py"})
+                      "outside": bad[:20], "trace_request": q,
+                      "how": "./check C20 --replay <this file> (harness/c20_aux/trace_child.py)"})
     ctx.correspond("real load/store trace of the compiled C routines == Lean access trace",
                    lreqs, impl)
     ctx.extra["traces_compared"] = len(lreqs)
@@ -510,6 +519,40 @@ def run(ctx):
         ctx.count("adaptive-outcome:" + ("raise" if v.startswith("raise") else "matrix"))
 
 
+def replay(ctx, rp):
+    """./check C20 --replay FILE: re-run the recorded request on the current tree"""
+    r = rp.get("replay", {})
+    if "trace_request" in r or ("request" in r and r["request"].get("id", "").startswith("t")):
+        q = r.get("trace_request") or r["request"]
+        res = run_trace_child(build_trace_libs(), [q])[q["id"]]
+        print("trace child:", json.dumps(res)[:2000])
+        bad = []
+        if "crash" in res:
+            bad = ["crash"]
+        else:
+            for tok in ([] if res["acc"] == "-" else res["acc"].split(",")):
+                a, off, w, _ = tok.split(":")
+                if int(off) < 0 or int(off) + int(w) > res["sizes"][int(a)]:
+                    bad.append(tok)
+        ctx.obligation("replay: every recorded access inside its array", "replay", not bad,
+                       str(bad[:10]))
+        if bad:
+            ctx.fail(rp.get("signature", {}), rp.get("what", "replayed"), r)
+    elif "request" in r:
+        q = r["request"]
+        res = run_api_child(common.ensure_build(asan=True), [q])[q["id"]]
+        print("api child:", json.dumps(res)[:2000])
+        bad = bool(res["reports"]) or res["outcome"] == "crash"
+        ctx.obligation("replay: no sanitizer report / crash", "replay", not bad,
+                       str(res["reports"][:4]))
+        if bad:
+            ctx.fail(rp.get("signature", {}), rp.get("what", "replayed"), r)
+    else:
+        ctx.obligation("replay: nothing to replay in this file", "replay", True)
+    ctx.case(("replay", json.dumps(r)[:500]), True, {"replayed": rp.get("what")})
+    ctx.case(("replay2",), True)
+
+
 def shrink_req(q):
     q = dict(q)
     return q
@@ -601,4 +644,82 @@ def oracle_stream(ctx, rng, nprng, quick):
         if rng.random() < 0.3:
             arrs.append(A(np.cumsum(nprng.randint(1, 3, size=n)).astype(float), "float64"))
         add("visibility", arrs, [], "visibility:" + cls, kw=kw)
+    if not quick:
+        sweep_stream(lambda *a, **k: add(*a, timeout=30, **k), rng, nprng)
     return reqs
+
+
+def sweep_stream(add, rng, nprng):
+    """thorough tier: the other public entry points that reach _ext kernels"""
+    for _ in range(60):
+        n, dim = rng.choice([1, 2, 3, 5, 8, 13]), rng.choice([1, 1, 2, 3])
+        ts = nprng.randint(0, 4, size=(n, dim)).astype(float) if rng.random() < 0.5 \
+            else nprng.rand(n, dim)
+        kw = {"metric": rng.choice(["supremum", "euclidean", "manhattan"])}
+        how = rng.choice(["threshold", "recurrence_rate", "local_recurrence_rate",
+                          "adaptive_neighborhood_size", "threshold_std"])
+        kw[how] = {"threshold": 0.5, "recurrence_rate": 0.3, "local_recurrence_rate": 0.3,
+                   "adaptive_neighborhood_size": rng.randrange(0, n + 1),
+                   "threshold_std": 0.5}[how]
+        if rng.random() < 0.3 and dim == 1:
+            kw.update(dim=rng.choice([1, 2, 3]), tau=rng.choice([1, 2]))
+            ts = ts[:, 0]
+        if rng.random() < 0.3:
+            kw["sparse_rqa"] = True
+        if rng.random() < 0.2:
+            kw["missing_values"] = True
+            ts = ts.copy()
+            ts[nprng.rand(*ts.shape) < 0.2] = np.nan
+        add("sweep", [A(ts, "float64")], [rng.randrange(0, n + 1)], "rp:" + how, kind="rp", kw=kw)
+    for _ in range(30):
+        nx, ny = rng.choice([1, 2, 3, 5, 8]), rng.choice([1, 2, 3, 5, 8])
+        dim = rng.choice([1, 2])
+        kw = {"metric": rng.choice(["supremum", "euclidean", "manhattan"])}
+        if rng.random() < 0.5:
+            kw["threshold"] = (0.5, 0.5) if rng.random() < 0.5 else 0.5
+        else:
+            kw["recurrence_rate"] = (0.3, 0.3) if rng.random() < 0.5 else 0.3
+        add("sweep", [A(nprng.rand(nx, dim), "float64"), A(nprng.rand(ny, dim), "float64")], [],
+            "crp", kind="crp", kw=kw)
+    for _ in range(25):
+        N, T = rng.choice([1, 2, 3, 5]), rng.choice([1, 2, 3, 5, 8, 16])
+        add("sweep", [A(nprng.randn(N, T), "float64")], [], "surrogates", kind="surr",
+            kw={"dim": rng.choice([1, 2, 3]), "delay": rng.choice([1, 2]), "thr": 0.5})
+    for _ in range(25):
+        n = rng.randrange(1, 12)
+        kw = {}
+        if rng.random() < 0.3:
+            kw["horizontal"] = True
+        add("sweep", [A(nprng.randint(0, 5, size=n).astype(float), "float64")], [],
+            "visibility-measures", kind="vg", kw=kw)
+    for _ in range(25):
+        T, N = rng.choice([1, 2, 3, 5, 10]), rng.choice([1, 2, 3, 5])
+        add("sweep", [A(nprng.randn(T, N), "float64")],
+            [rng.choice([0, 1, 2, T - 1, T, T + 2]), rng.choice([1, 2, 6])],
+            "coupling", kind="coupling")
+    for _ in range(40):
+        n = rng.choice([1, 2, 3, 4, 6, 9])
+        directed = rng.random() < 0.4
+        adj = (nprng.rand(n, n) < rng.choice([0.0, 0.3, 0.6, 1.0])).astype(int)
+        if not directed:
+            adj = np.triu(adj, 1)
+            adj = adj + adj.T
+        np.fill_diagonal(adj, 0)
+        arrs = [A(adj, "int8")]
+        if rng.random() < 0.5:
+            arrs.append(A(nprng.randint(1, 4, size=n).astype(float), "float64"))
+        add("sweep", arrs, [], "network:" + ("directed" if directed else "undirected"),
+            kind="network", kw={"directed": directed})
+    for _ in range(20):
+        n = rng.choice([2, 3, 4, 6, 8])
+        adj = np.triu((nprng.rand(n, n) < 0.5).astype(int), 1)
+        adj = adj + adj.T
+        add("sweep", [A(adj, "int8")], [], "interacting", kind="interacting")
+    for _ in range(20):
+        T, N = rng.choice([1, 2, 5, 10, 20]), rng.choice([1, 2, 3, 4])
+        ev = (nprng.rand(T, N) < 0.3).astype(int)
+        add("sweep", [A(ev, "int64")], [rng.choice([0, 1, 3, 50])], "events", kind="events")
+    for _ in range(10):
+        n = rng.choice([1, 2, 3, 5])
+        add("sweep", [A(nprng.rand(n, rng.choice([1, 2, 3])) * 2 - 1, "float64")], [], "grid",
+            kind="grid")
